@@ -47,6 +47,7 @@ type LocalFSWriter struct {
 	lenops           uint64
 	height           base.Height
 	saved            bool
+	moved            bool
 	opsHeaderOnce    sync.Once
 	statesHeaderOnce sync.Once
 	l                sync.Mutex
@@ -294,7 +295,11 @@ func (w *LocalFSWriter) Save(ctx context.Context) (base.BlockMap, error) {
 
 	switch m, err := w.save(ctx, heightdirectory); {
 	case err != nil:
-		_ = os.RemoveAll(heightdirectory)
+		// NOTE remove the height directory only when this writer moved its own
+		// temp directory there; before that it may belong to another writer.
+		if w.moved {
+			_ = os.RemoveAll(heightdirectory)
+		}
 
 		return nil, errors.WithMessage(err, "save fs writer")
 	default:
@@ -351,6 +356,8 @@ func (w *LocalFSWriter) save(_ context.Context, heightdirectory string) (base.Bl
 	if err := os.Rename(w.temp, heightdirectory); err != nil {
 		return nil, errors.WithStack(err)
 	}
+
+	w.moved = true
 
 	m := w.m
 
